@@ -59,7 +59,7 @@ def traces_for(key, make, classes, levels, seqs, prng):
     return traces
 
 
-def build_traces(ctx, nprog, levels=("2",), seqs=0, nir=None):
+def build_traces(ctx, nprog, levels=("2",), seqs=0, nir=None, npat=0):
     """Generate programs (C through c_to_ir, and IR built directly by harness/irgen.py), run single passes /
     pipelines / random pass sequences on fresh copies, return the corpus with all traces."""
     import random
@@ -90,6 +90,23 @@ def build_traces(ctx, nprog, levels=("2",), seqs=0, nir=None):
         f, vecs = absprog.arg_vectors(prog, prng, nvec)
         out.append({"key": key, "seed": seed, "src": src, "traces": traces, "fn": f["n"], "vecs": vecs,
                     "ext": optcorpus.ext_stubs(prog, prng)})
+    if npat:
+        from harness import irpatterns
+
+        pats = irpatterns.patterns(random.Random(rng.randrange(1 << 30)), thorough=ctx.tier == "thorough")
+        if npat < len(pats):
+            pats = random.Random(rng.randrange(1 << 30)).sample(pats, npat)
+        for key, make, fn, ptys in pats:
+            prng = random.Random(sum(ord(ch) * (k + 1) for k, ch in enumerate(key)))
+            try:
+                make()
+            except Exception:
+                ctx.cov["pattern_build_failed"] = ctx.cov.get("pattern_build_failed", 0) + 1
+                continue
+            traces = traces_for(key, make, classes, levels[:1], 0, prng)
+            vecs = int_vectors(ptys, prng, 4 if ctx.tier == "quick" else 8)
+            out.append({"key": key, "seed": 0, "src": "harness/irpatterns.py pattern " + key, "traces": traces, "fn": fn,
+                        "vecs": vecs, "ext": [{"name": "ext_f", "rets": [project_ir.limbs(9, 4)]}]})
     for pi in range(nprog if nir is None else nir):
         seed = rng.randrange(1 << 30)
         prng = random.Random(seed)
@@ -200,7 +217,8 @@ class Engine:
         ctx.assume("the IR projection (harness/project_ir.py) reports the module faithfully")
         ctx.assume("IR.tla is the semantics of ppci IR: wrap-around integers, truncating / and %, arithmetic >> on signed types")
         levels = ("2",) if ctx.tier == "quick" else ("1", "2", "s")
-        corpus = build_traces(ctx, nprog, levels=levels, seqs=1 if ctx.tier == "quick" else 3)
+        corpus = build_traces(ctx, nprog, levels=levels, seqs=1 if ctx.tier == "quick" else 3,
+                              npat=400 if ctx.tier == "quick" else 100000)
         cases = ir_cases(ctx, corpus)
         for c in cases[:3]:
             ctx.sample({"id": c["id"], "snapshots": c["labels"][:6], "args": c["vecs"][:2]})
